@@ -12,18 +12,21 @@ from . import env, inputs, par, tlc
 NZ = 6
 
 
+FMT = {'ieee': 5, 'ibm': 1, 'int': 2}
+
+
 def parse(out):
     text = re.sub(r'\s+', ' ', out)
     cases = []
-    for m in re.finditer(r'<< ?"RIO", (\d+), (\d+), "(il|xl)", \{([\d, ]*)\}, << ?(\d+), (\d+), (\d+), (\d+) ?>>, (\d), (TRUE|FALSE), (TRUE|FALSE) ?>>', text):
-        ni, nx, srt, dead, a, b, c, d, ext, st, us = m.groups()      # st: usable, us: tempting
+    for m in re.finditer(r'<< ?"RIO", (\d+), (\d+), "(il|xl)", \{([\d, ]*)\}, << ?(\d+), (\d+), (\d+), (\d+) ?>>, (\d), "(ieee|ibm|int)", "(reduced|fallback|raise)", (TRUE|FALSE) ?>>', text):
+        ni, nx, srt, dead, a, b, c, d, ext, fmt, outcome, tempting = m.groups()
         cases.append({'ni': int(ni), 'nx': int(nx), 'srt': srt, 'dead': [int(t) for t in dead.split(',') if t.strip()],
-                      'win': [int(a), int(b), int(c), int(d)], 'ext': int(ext), 'usable': st == 'TRUE', 'tempting': us == 'TRUE'})
+                      'win': [int(a), int(b), int(c), int(d)], 'ext': int(ext), 'fmt': fmt, 'outcome': outcome, 'tempting': tempting == 'TRUE'})
     return cases
 
 
 def convert_both(case, d, tag):
-    """-> (same samples?, reduced route taken?, detail)"""
+    """-> (same samples?, what the reduce_iops=True conversion did: reduced | fallback | raise, shape right?, detail)"""
     from seismic_zfp.conversion import SegyConverter
     from seismic_zfp.read import SgzReader
     ni, nx, srt = case['ni'], case['nx'], case['srt']
@@ -32,7 +35,7 @@ def convert_both(case, d, tag):
         i, x = ((t - 1) // nx, (t - 1) % nx) if srt == 'il' else ((t - 1) % ni, (t - 1) // ni)
         cube[i, x, :] = 0.0
     sgy = os.path.join(d, f'{tag}.sgy')
-    inputs.write_segy(sgy, cube, np.arange(ni) + 1, np.arange(nx) + 1, np.arange(NZ) * 4.0, ext_text=case['ext'], sorting=srt)
+    inputs.write_segy(sgy, cube, np.arange(ni) + 1, np.arange(nx) + 1, np.arange(NZ) * 4.0, ext_text=case['ext'], sorting=srt, fmt=FMT[case.get('fmt', 'ieee')])
     a, b, c, dd = case['win']
     whole = [a, b, c, dd] == [0, ni, 0, nx]
     kw = {} if whole else dict(min_il=a, max_il=b, min_xl=c, max_xl=dd)
@@ -44,28 +47,36 @@ def convert_both(case, d, tag):
     def counted(self, i):
         calls.append(i)
         return orig(self, i)
-    vols, fell_back = {}, None
+    vols, did = {}, None
     cu.MinimalInlineReader.read_line = counted
     try:
         for iops in (False, True):
             p = os.path.join(d, f'{tag}-{int(iops)}.sgz')
             del calls[:]
-            with env.quiet():
-                with SegyConverter(sgy, **kw) as cv:
-                    cv.run(p, bits_per_voxel=32, blockshape=(4, 4, -1), reduce_iops=iops)
-                with SgzReader(p) as r:
-                    vols[iops] = np.array(r.read_volume(), copy=True)
-            if iops:
-                fell_back = len(calls) < 2
-            os.remove(p)
+            try:
+                with env.quiet():
+                    with SegyConverter(sgy, **kw) as cv:
+                        cv.run(p, bits_per_voxel=32, blockshape=(4, 4, -1), reduce_iops=iops)
+                    with SgzReader(p) as r:
+                        vols[iops] = np.array(r.read_volume(), copy=True)
+                if iops:
+                    did = 'fallback' if len(calls) < 2 else 'reduced'
+            except RuntimeError:
+                if not iops:
+                    raise
+                did = 'raise'           # the reduced reader refuses the sample format (no file is judged)
+            if os.path.exists(p):
+                os.remove(p)
     finally:
         cu.MinimalInlineReader.read_line = orig
     os.remove(sgy)
-    same = vols[False].shape == vols[True].shape and np.array_equal(vols[False], vols[True])
     want = cube[a:b, c:dd]
     right = vols[False].shape == want.shape     # (the segyio route itself is C01's / C11's subject; its shape is checked here as a sanity anchor)
-    return same, (not fell_back), right, (f'{int(np.count_nonzero(vols[False] != vols[True]))} samples differ' if (not same and vols[False].shape == vols[True].shape)
-                                          else ('' if same else f'shapes {vols[False].shape} / {vols[True].shape}'))
+    if did == 'raise':
+        return True, did, right, ''
+    same = vols[False].shape == vols[True].shape and np.array_equal(vols[False], vols[True])
+    return same, did, right, (f'{int(np.count_nonzero(vols[False] != vols[True]))} samples differ' if (not same and vols[False].shape == vols[True].shape)
+                              else ('' if same else f'shapes {vols[False].shape} / {vols[True].shape}'))
 
 
 def _worker(item):
@@ -80,7 +91,7 @@ def _worker(item):
 
 
 def case_of(c):
-    return {'reduced_io': {k: c[k] for k in ('ni', 'nx', 'srt', 'dead', 'win', 'ext')}}
+    return {'reduced_io': {k: c[k] for k in ('ni', 'nx', 'srt', 'dead', 'win', 'ext', 'fmt')}}
 
 
 def run_pass(run, n, rng):
@@ -107,12 +118,12 @@ def run_pass(run, n, rng):
         if isinstance(r, par.Crash) or r[0] == 'error':
             run.fail('C01.reduced-route-converts', case, str(r), 'a file by either route')
             continue
-        same, reduced, right, detail = r
+        same, did, right, detail = r
         run.check(same and right, 'C01.reduced-route-same-samples', case, detail, 'the samples the segyio route writes')
-        if reduced != c['usable']:
+        if did != c['outcome']:
             drifts += 1
             if drifts <= 5:
-                run.drift(f"SgzReducedIo says usable={c['usable']} for {case['reduced_io']}, the converter {'used' if reduced else 'did not use'} the reduced route")
+                run.drift(f"SgzReducedIo!Outcome = {c['outcome']} for {case['reduced_io']}, the converter: {did}")
         elif same:
             run.traces_validated += 1
     run.extra['reduced_io'] = {'model_cases': len(cases), 'converted': len(pick), 'cases only the sorting / shape guard keeps off the reduced route': len(hot), 'drifting': drifts}
